@@ -31,7 +31,8 @@ TABLE = {
             ('OpyVerif.Generated.Ops', 'Opy.Gen', r'dumpSkips_spec|dump_guard_known|parseRules_spec'),
             ('OpyVerif.Proofs.C19', 'Opy', r'dump_series'),
             ('OpyVerif.Generated.Constants', 'Opy.Gen', r'historyKeys_eq'),
-            ('OpyVerif.Generated.Skeletons', 'Opy.Gen', r'skel_\w+_good')],
+            ('OpyVerif.Generated.Skeletons', 'Opy.Gen', r'skel_\w+_good'),
+            ('OpyVerif.Proofs.HistCode', 'Opy', r'code_start_time'), ('OpyVerif.Generated.HistProg', 'Opy.Gen', r'startProg_eq')],
     'C05': [('OpyVerif.Proofs.C05', 'Opy', None), ('OpyVerif.Proofs.C05code', 'Opy', None),
             ('OpyVerif.Model.EffectSites', 'Opy', None), ('OpyVerif.Generated.Effects', 'Opy.Gen', None)],
     'C06': [('OpyVerif.Proofs.C06', 'Opy', None),
@@ -91,7 +92,8 @@ TABLE = {
             ('OpyVerif.Proofs.SelectProg', 'Opy', None), ('OpyVerif.Generated.Select', 'Opy.Gen', None),
             ('OpyVerif.Generated.Constants', 'Opy.Gen', r'tournamentSize_pos')],
     'C19': [('OpyVerif.Proofs.C19', 'Opy', None),
-            ('OpyVerif.Proofs.C04', 'Opy', r'load_after_save|lookup_loadInto_saved')],
+            ('OpyVerif.Proofs.C04', 'Opy', r'load_after_save|lookup_loadInto_saved'),
+            ('OpyVerif.Proofs.HistCode', 'Opy', r'code_get'), ('OpyVerif.Generated.HistProg', 'Opy.Gen', r'getProg_eq')],
     'C20': [('OpyVerif.Proofs.C20', 'Opy', None),
             ('OpyVerif.Proofs.SweepCode', 'Opy', None), ('OpyVerif.Proofs.SweepProg', 'Opy', r'_truthful|_is_machine_rule|eval_once'),
             ('OpyVerif.Generated.Sweeps', 'Opy.Gen', None),
